@@ -324,6 +324,10 @@ func exec(op string) string {
 		return execTk(f)
 	case "res":
 		return execRes(f)
+	case "is":
+		x.ServerCerts() // key generation outside the watchdog
+		x.PKIErr()
+		return vh.SafeTimeout(120*time.Second, func() string { return execIs(f) })
 	case "rv":
 		return execRv(f)
 	case "sc":
@@ -720,6 +724,8 @@ func gen(r *vh.Rand) string {
 		return genRv(r)
 	case 2:
 		return genSc(r)
+	case 3, 4:
+		return genIs(r)
 	}
 	switch r.Intn(10) {
 	case 0:
